@@ -3,6 +3,12 @@ import Mathlib.Tactic.Linarith
 import Mathlib.Tactic.Positivity
 import Mathlib.Tactic.Ring
 import Mathlib.Tactic.SplitIfs
+/-!
+Lemmas for property C06 (`Comdex/Props/C06.lean`): floor/half-even/ceiling facts about the `Dec` primitives on
+non-negative arguments, peeling of the `Except` monad of `Model/Pool.lean`, the arithmetic content of
+`Deposit`/`Withdraw`, panic freedom, the no-overflow computations, monotonicity of `Quo`, and what an accepted
+`CreateRangedPool` guarantees about its parameters.
+-/
 namespace Comdex.Pool
 open Comdex
 
@@ -570,5 +576,306 @@ theorem outVal_facts {r ps pc : Int} {fee : Dec} (hr : 0 ≤ r) (hps : 0 < ps) (
       _ ≤ (r * mult) * (pc * Dec.P) := s2
       _ = (r * pc * mult) * Dec.P := by ring
   exact Int.le_of_mul_le_mul_right this hP
+
+/-! ## When nothing overflows -/
+
+def B315 : Int := 66749594872528440074844428317798503581334516323645399060845050244444366430645017188217565216768
+def B256 : Int := 115792089237316195423570985008687907853269984665640564039457584007913129639936
+def E40 : Int := 10000000000000000000000000000000000000000
+def E58 : Int := 10000000000000000000000000000000000000000 * 1000000000000000000
+
+set_option exponentiation.threshold 512 in
+theorem B315_eq : ((2:Nat) ^ 315 : Nat) = B315.toNat := by decide
+set_option exponentiation.threshold 512 in
+theorem B256_eq : ((2:Nat) ^ 256 : Nat) = B256.toNat := by decide
+
+set_option exponentiation.threshold 512 in
+theorem chk_eq {v : Int} (h0 : 0 ≤ v) (h1 : v < B315) : chk v = .ok v := by
+  unfold chk Dec.fits
+  rw [if_pos]
+  rw [decide_eq_true_eq, B315_eq]
+  unfold B315 at *
+  omega
+
+set_option exponentiation.threshold 512 in
+theorem chkInt_eq {v : Int} (h0 : 0 ≤ v) (h1 : v < B256) : chkInt v = .ok v := by
+  unfold chkInt Dec.fitsInt
+  rw [if_pos]
+  rw [decide_eq_true_eq, B256_eq]
+  unfold B256 at *
+  omega
+theorem lt315_of_le_E58 {v : Int} (h : v ≤ E58) : v < B315 := Int.lt_of_le_of_lt h (by decide)
+theorem lt256_of_le_E40 {v : Int} (h : v ≤ E40) : v < B256 := Int.lt_of_le_of_lt h (by decide)
+theorem P_le_E58 : Dec.P ≤ E58 := by decide
+theorem E40_nonneg : (0:Int) ≤ E40 := by decide
+
+theorem ok_bind {α β : Type} (a : α) (f : α → M β) : ((Except.ok a : M α) >>= f) = f a := rfl
+
+/-- `Withdraw` cannot overflow inside the module bounds: reserves ≤ 10^40 (any supply, any fee in [0,1]) -/
+theorem withdrawCore_eq_ok {rx ry ps pc : Int} {fee : Dec} (h : WithdrawDom rx ry ps pc fee)
+    (bx : rx ≤ E40) (bY : ry ≤ E40) :
+    withdrawCore rx ry ps pc fee = .ok (withdrawVals rx ry ps pc fee) := by
+  obtain ⟨hrx, hry, hps, hpc, hle, hf0, hf1⟩ := h
+  have hP := P_pos
+  obtain ⟨q0, q1⟩ := ratio_int hpc hps
+  have hq : Dec.quoTruncate (toDec pc) (toDec ps) = propVal ps pc := rfl
+  rw [hq] at q0 q1
+  -- prop ≤ 10^18
+  have qP : propVal ps pc ≤ Dec.P := by
+    have : propVal ps pc * ps ≤ Dec.P * ps :=
+      Int.le_trans q1 (by rw [Int.mul_comm]; exact Int.mul_le_mul_of_nonneg_left hle (Int.le_of_lt hP))
+    exact Int.le_of_mul_le_mul_right this hps
+  have hm0 : (0:Int) ≤ Dec.one - fee := Int.sub_nonneg_of_le hf1
+  have hm1 : Dec.one - fee ≤ Dec.P := Int.sub_le_self _ hf0
+  have e1 : quoTruncate (toDec pc) (toDec ps) = .ok (propVal ps pc) := by
+    unfold quoTruncate
+    rw [if_neg (fun e => (Int.ne_of_gt hps) (toDec_eq_zero.mp e)), hq]
+    exact chk_eq q0 (lt315_of_le_E58 (Int.le_trans qP P_le_E58))
+  have e2 : sub Dec.one fee = .ok (Dec.one - fee) := by
+    unfold sub Dec.sub
+    exact chk_eq hm0 (lt315_of_le_E58 (Int.le_trans hm1 P_le_E58))
+  -- one coin
+  have coin : ∀ r : Int, 0 ≤ r → r ≤ E40 →
+      mulTruncate (toDec r) (propVal ps pc) = .ok (r * propVal ps pc) ∧
+      mulTruncate (r * propVal ps pc) (Dec.one - fee) = .ok (r * propVal ps pc * (Dec.one - fee) / Dec.P) ∧
+      truncateInt (r * propVal ps pc * (Dec.one - fee) / Dec.P) = .ok (outVal r ps pc fee) := by
+    intro r hr br
+    have n1 : 0 ≤ r * propVal ps pc := Int.mul_nonneg hr q0
+    have u1 : r * propVal ps pc ≤ E58 := by
+      unfold E58
+      exact Int.mul_le_mul br qP q0 E40_nonneg
+    have n2 : 0 ≤ r * propVal ps pc * (Dec.one - fee) := Int.mul_nonneg n1 hm0
+    have n3 : 0 ≤ r * propVal ps pc * (Dec.one - fee) / Dec.P := Int.ediv_nonneg n2 (Int.le_of_lt hP)
+    have u2 : r * propVal ps pc * (Dec.one - fee) / Dec.P ≤ r * propVal ps pc := by
+      apply Int.ediv_le_of_le_mul hP
+      exact Int.mul_le_mul_of_nonneg_left hm1 n1
+    have ev : outVal r ps pc fee = r * propVal ps pc * (Dec.one - fee) / Dec.P / Dec.P := by
+      unfold outVal
+      rw [mulTruncate_toDec hr q0, show Dec.sub Dec.one fee = Dec.one - fee from rfl, mulTruncate_nn n1 hm0, truncateInt_nn n3]
+    refine ⟨?_, ?_, ?_⟩
+    · unfold mulTruncate; rw [mulTruncate_toDec hr q0]
+      exact chk_eq n1 (lt315_of_le_E58 u1)
+    · unfold mulTruncate; rw [mulTruncate_nn n1 hm0]
+      exact chk_eq n3 (lt315_of_le_E58 (Int.le_trans u2 u1))
+    · unfold truncateInt; rw [truncateInt_nn n3, ev]
+      have n4 := Int.ediv_nonneg n3 (Int.le_of_lt hP)
+      -- out ≤ r ≤ 10^40 :  out·P ≤ mid ≤ r·prop ≤ r·P
+      have u4 : r * propVal ps pc * (Dec.one - fee) / Dec.P / Dec.P ≤ r := by
+        apply Int.ediv_le_of_le_mul hP
+        exact Int.le_trans u2 (Int.mul_le_mul_of_nonneg_left qP hr)
+      exact chkInt_eq n4 (lt256_of_le_E40 (Int.le_trans u4 br))
+  obtain ⟨x3, x4, x5⟩ := coin rx hrx bx
+  obtain ⟨y3, y4, y5⟩ := coin ry hry bY
+  simp only [withdrawCore, e1, e2, x3, x4, x5, y3, y4, y5, ok_bind]
+  rfl
+
+/-- `Deposit` does not overflow when the offers are inside the module bounds and `ps·ratio` stays below 2^315
+(the only intermediate that can exceed 315 bits) -/
+theorem depositCore_eq_ok {rx ry ps x y : Int} (h : DepositDom rx ry ps x y) (bx : x ≤ E40) (bY : y ≤ E40)
+    (hov : ps * ratioVal rx ry x y < B315) :
+    depositCore rx ry ps x y = .ok (depositVals rx ry ps x y) := by
+  have hdom := h
+  obtain ⟨hrx, hry, hr, hps, hx, hy⟩ := h
+  have hP := P_pos
+  -- a truncated quotient of an integer offer fits
+  have qfit : ∀ a b : Int, 0 ≤ a → a ≤ E40 → 0 < b →
+      quoTruncate (toDec a) (toDec b) = .ok (Dec.quoTruncate (toDec a) (toDec b)) := by
+    intro a b ha ba hb
+    obtain ⟨q0, q1⟩ := ratio_int ha hb
+    have : Dec.quoTruncate (toDec a) (toDec b) ≤ a * Dec.P := by
+      have h1 : Dec.quoTruncate (toDec a) (toDec b) * 1 ≤ Dec.quoTruncate (toDec a) (toDec b) * b :=
+        Int.mul_le_mul_of_nonneg_left (by omega) q0
+      rw [Int.mul_one] at h1
+      exact Int.le_trans h1 q1
+    unfold quoTruncate
+    rw [if_neg (fun e => (Int.ne_of_gt hb) (toDec_eq_zero.mp e))]
+    have u : a * Dec.P ≤ E58 := by unfold E58; exact Int.mul_le_mul_of_nonneg_right ba (Int.le_of_lt hP)
+    exact chk_eq q0 (lt315_of_le_E58 (Int.le_trans this u))
+  have e0 : depositRatio rx ry x y = .ok (ratioVal rx ry x y) := by
+    unfold depositRatio ratioVal
+    by_cases h0 : rx = 0
+    · rw [if_pos (toDec_eq_zero.mpr h0), if_pos (toDec_eq_zero.mpr h0)]
+      exact qfit y ry hy bY (by omega)
+    · rw [if_neg (fun e => h0 (toDec_eq_zero.mp e)), if_neg (fun e => h0 (toDec_eq_zero.mp e))]
+      by_cases h1 : ry = 0
+      · rw [if_pos (toDec_eq_zero.mpr h1), if_pos (toDec_eq_zero.mpr h1)]
+        exact qfit x rx hx bx (by omega)
+      · rw [if_neg (fun e => h1 (toDec_eq_zero.mp e)), if_neg (fun e => h1 (toDec_eq_zero.mp e))]
+        rw [qfit x rx hx bx (by omega), qfit y ry hy bY (by omega)]
+        rfl
+  obtain ⟨r0, r1, r2⟩ := ratioVal_facts hrx hry hr hx hy
+  obtain ⟨p0, p1⟩ := pc_facts (Int.le_of_lt hps) r0
+  have hpc : Dec.truncateInt (Dec.mulTruncate (toDec ps) (ratioVal rx ry x y)) = pcVal rx ry ps x y := rfl
+  have n1 : 0 ≤ ps * ratioVal rx ry x y := Int.mul_nonneg (Int.le_of_lt hps) r0
+  have e1 : mulTruncate (toDec ps) (ratioVal rx ry x y) = .ok (ps * ratioVal rx ry x y) := by
+    unfold mulTruncate; rw [mulTruncate_toDec (Int.le_of_lt hps) r0]
+    exact chk_eq n1 hov
+  have epc : pcVal rx ry ps x y = ps * ratioVal rx ry x y / Dec.P := by
+    unfold pcVal; rw [mulTruncate_toDec (Int.le_of_lt hps) r0, truncateInt_nn n1]
+  have e2 : truncateInt (ps * ratioVal rx ry x y) = .ok (pcVal rx ry ps x y) := by
+    unfold truncateInt; rw [truncateInt_nn n1, epc]
+    have : ps * ratioVal rx ry x y / Dec.P < B256 := by
+      apply Int.ediv_lt_of_lt_mul hP
+      exact Int.lt_trans hov (by decide)
+    exact chkInt_eq (Int.ediv_nonneg n1 (Int.le_of_lt hP)) this
+  rw [hpc] at p0 p1
+  obtain ⟨m0, m1, _⟩ := mp_facts p0 hps
+  have hmp : Dec.quo (toDec (pcVal rx ry ps x y)) (toDec ps) = mpVal rx ry ps x y := rfl
+  rw [hmp] at m0 m1
+  have mle : mpVal rx ry ps x y ≤ ratioVal rx ry x y := m1 _ p1
+  have ux : x * Dec.P ≤ E58 := by unfold E58; exact Int.mul_le_mul_of_nonneg_right bx (Int.le_of_lt hP)
+  have uy : y * Dec.P ≤ E58 := by unfold E58; exact Int.mul_le_mul_of_nonneg_right bY (Int.le_of_lt hP)
+  -- the ratio itself is at most max(x,y)·10^18
+  have rle : ratioVal rx ry x y ≤ E58 := by
+    rcases hr with hr | hr
+    · have : ratioVal rx ry x y * 1 ≤ rx * ratioVal rx ry x y := by
+        rw [Int.mul_comm rx]; exact Int.mul_le_mul_of_nonneg_left (by omega) r0
+      rw [Int.mul_one] at this
+      exact Int.le_trans this (Int.le_trans r1 ux)
+    · have : ratioVal rx ry x y * 1 ≤ ry * ratioVal rx ry x y := by
+        rw [Int.mul_comm ry]; exact Int.mul_le_mul_of_nonneg_left (by omega) r0
+      rw [Int.mul_one] at this
+      exact Int.le_trans this (Int.le_trans r2 uy)
+  have e3 : quo (toDec (pcVal rx ry ps x y)) (toDec ps) = .ok (mpVal rx ry ps x y) := by
+    unfold quo
+    rw [if_neg (fun e => (Int.ne_of_gt hps) (toDec_eq_zero.mp e)), hmp]
+    exact chk_eq m0 (lt315_of_le_E58 (Int.le_trans mle rle))
+  have coin : ∀ r off : Int, 0 ≤ r → 0 ≤ off → off ≤ E40 → r * ratioVal rx ry x y ≤ off * Dec.P →
+      mul (toDec r) (mpVal rx ry ps x y) = .ok (r * mpVal rx ry ps x y) ∧
+      truncateInt (Dec.ceil (r * mpVal rx ry ps x y)) = .ok (accVal r (mpVal rx ry ps x y)) := by
+    intro r off hr0 ho bo hle
+    have n : 0 ≤ r * mpVal rx ry ps x y := Int.mul_nonneg hr0 m0
+    have e : Dec.mul (toDec r) (mpVal rx ry ps x y) = r * mpVal rx ry ps x y := by
+      unfold Dec.mul toDec Dec.ofInt
+      rw [show r * Dec.P * mpVal rx ry ps x y = (r * mpVal rx ry ps x y) * Dec.P by ring]
+      exact chopRound_mul_P n
+    have u : r * mpVal rx ry ps x y ≤ off * Dec.P :=
+      Int.le_trans (Int.mul_le_mul_of_nonneg_left mle hr0) hle
+    have uo : off * Dec.P ≤ E58 := by unfold E58; exact Int.mul_le_mul_of_nonneg_right bo (Int.le_of_lt hP)
+    obtain ⟨a0, _, a2⟩ := acc_facts hr0 m0
+    refine ⟨?_, ?_⟩
+    · unfold mul; rw [e]; exact chk_eq n (lt315_of_le_E58 (Int.le_trans u uo))
+    · unfold truncateInt
+      have : Dec.truncateInt (Dec.ceil (r * mpVal rx ry ps x y)) = accVal r (mpVal rx ry ps x y) := by
+        unfold accVal; rw [e]
+      rw [this]
+      exact chkInt_eq a0 (lt256_of_le_E40 (Int.le_trans (a2 off u) bo))
+  obtain ⟨x1, x2⟩ := coin rx x hrx hx bx r1
+  obtain ⟨y1, y2⟩ := coin ry y hry hy bY r2
+  simp only [depositCore, e0, e1, e2, e3, x1, x2, y1, y2, ok_bind]
+  rfl
+
+/-! ## Monotonicity of `Quo` (for the ranged-pool price) -/
+
+theorem chopRound_mono {s t : Int} (hs : 0 ≤ s) (h : s ≤ t) : Dec.chopRound s ≤ Dec.chopRound t := by
+  have ht : 0 ≤ t := Int.le_trans hs h
+  have s1 : s.tdiv Dec.P = s / Dec.P := Int.tdiv_eq_ediv_of_nonneg hs
+  have s2 : s.tmod Dec.P = s % Dec.P := Int.tmod_eq_emod_of_nonneg hs
+  have s3 := Int.emod_add_mul_ediv s Dec.P
+  have s4 := Int.emod_nonneg s (Int.ne_of_gt P_pos)
+  have s5 := Int.emod_lt_of_pos s P_pos
+  have t1 : t.tdiv Dec.P = t / Dec.P := Int.tdiv_eq_ediv_of_nonneg ht
+  have t2 : t.tmod Dec.P = t % Dec.P := Int.tmod_eq_emod_of_nonneg ht
+  have t3 := Int.emod_add_mul_ediv t Dec.P
+  have t4 := Int.emod_nonneg t (Int.ne_of_gt P_pos)
+  have t5 := Int.emod_lt_of_pos t P_pos
+  unfold Dec.chopRound Dec.chopRoundNonneg
+  rw [if_neg (Int.not_lt.mpr hs), if_neg (Int.not_lt.mpr ht)]
+  simp only [s1, s2, t1, t2]
+  generalize s / Dec.P = q at *
+  generalize s % Dec.P = r at *
+  generalize t / Dec.P = q' at *
+  generalize t % Dec.P = r' at *
+  simp only [P_val, Dec.half] at *
+  split_ifs <;> omega
+
+theorem quo_mono_num {a a' b : Int} (ha : 0 ≤ a) (h : a ≤ a') (hb : 0 < b) : Dec.quo a b ≤ Dec.quo a' b := by
+  have ha' : 0 ≤ a' := Int.le_trans ha h
+  have n : 0 ≤ a * Dec.PP := Int.mul_nonneg ha (Int.le_of_lt PP_pos)
+  have n' : 0 ≤ a' * Dec.PP := Int.mul_nonneg ha' (Int.le_of_lt PP_pos)
+  unfold Dec.quo
+  rw [Int.tdiv_eq_ediv_of_nonneg n, Int.tdiv_eq_ediv_of_nonneg n']
+  apply chopRound_mono (Int.ediv_nonneg n (Int.le_of_lt hb))
+  exact Int.ediv_le_ediv hb (Int.mul_le_mul_of_nonneg_right h (Int.le_of_lt PP_pos))
+
+theorem quo_anti_den {a b b' : Int} (ha : 0 ≤ a) (hb : 0 < b) (h : b ≤ b') : Dec.quo a b' ≤ Dec.quo a b := by
+  have hb' : 0 < b' := Int.lt_of_lt_of_le hb h
+  have n : 0 ≤ a * Dec.PP := Int.mul_nonneg ha (Int.le_of_lt PP_pos)
+  unfold Dec.quo
+  rw [Int.tdiv_eq_ediv_of_nonneg n, Int.tdiv_eq_ediv_of_nonneg n]
+  apply chopRound_mono (Int.ediv_nonneg n (Int.le_of_lt hb'))
+  apply Int.le_ediv_of_mul_le hb
+  have q0 : 0 ≤ a * Dec.PP / b' := Int.ediv_nonneg n (Int.le_of_lt hb')
+  exact Int.le_trans (Int.mul_le_mul_of_nonneg_left h q0) (Int.ediv_mul_le _ (Int.ne_of_gt hb'))
+
+/-! ## Ranged pool creation: what an accepted creation guarantees about the parameters -/
+
+theorem pure_ok {α : Type} {a b : α} (h : (pure a : M α) = .ok b) : a = b := Except.ok.inj h
+
+theorem validate_ok_true {minP maxP initP : Dec} (h : validateRangedPoolParams minP maxP initP = .ok true) :
+    0 < initP ∧ minPoolPrice ≤ minP ∧ maxP ≤ maxPoolPrice ∧ minP < maxP ∧ minP ≤ initP ∧ initP ≤ maxP ∧
+    minGapRatio ≤ Dec.quo (Dec.sub maxP minP) minP := by
+  unfold validateRangedPoolParams at h
+  split at h
+  · exact absurd (pure_ok h) (by decide)
+  rename_i c1
+  split at h
+  · exact absurd (pure_ok h) (by decide)
+  rename_i c2
+  split at h
+  · exact absurd (pure_ok h) (by decide)
+  rename_i c3
+  split at h
+  · exact absurd (pure_ok h) (by decide)
+  rename_i c4
+  split at h
+  · exact absurd (pure_ok h) (by decide)
+  rename_i c5
+  obtain ⟨d, hd, h⟩ := bind_ok h
+  obtain ⟨g, hg, h⟩ := bind_ok h
+  have e := pure_ok h
+  rw [decide_eq_true_eq] at e
+  obtain ⟨g1, g2, g3⟩ := e
+  rw [(quo_ok hg).2, sub_ok hd] at g1
+  exact ⟨Decidable.not_not.mp c1, Int.not_lt.mp c2, Int.not_lt.mp c4, Decidable.not_not.mp c5,
+    Int.not_lt.mp g2, Int.not_lt.mp g3, Int.not_lt.mp g1⟩
+
+theorem newRangedPool_ok {rx ry ps : Int} {minP maxP : Dec} {p : RPool}
+    (h : newRangedPool rx ry ps minP maxP = .ok p) :
+    p.rx = rx ∧ p.ry = ry ∧ p.minP = minP ∧ p.maxP = maxP ∧
+    p.xComp = Dec.add (toDec rx) p.transX ∧ p.yComp = Dec.add (toDec ry) p.transY := by
+  unfold newRangedPool at h
+  obtain ⟨⟨tx, ty⟩, _, h⟩ := bind_ok h
+  obtain ⟨xc, hx, h⟩ := bind_ok h
+  obtain ⟨yc, hy, h⟩ := bind_ok h
+  have e := pure_ok h
+  rw [← e]
+  exact ⟨rfl, rfl, rfl, rfl, chk_ok hx, chk_ok hy⟩
+
+theorem createRangedPool_ok {x y : Int} {minP maxP initP : Dec} {p : RPool}
+    (h : createRangedPool x y minP maxP initP = .ok (some p)) :
+    (0 < x ∨ 0 < y) ∧ validateRangedPoolParams minP maxP initP = .ok true ∧ p.minP = minP ∧ p.maxP = maxP := by
+  unfold createRangedPool at h
+  split at h
+  · exact absurd (pure_ok h) (by simp)
+  rename_i c
+  obtain ⟨v, hv, h⟩ := bind_ok h
+  split at h
+  · exact absurd (pure_ok h) (by simp)
+  rename_i cv
+  obtain ⟨a, _, h⟩ := bind_ok h
+  obtain ⟨q, hq, h⟩ := bind_ok h
+  have e : some q = some p := pure_ok h
+  have e' := Option.some.inj e
+  subst e'
+  obtain ⟨_, _, m1, m2, _, _⟩ := newRangedPool_ok hq
+  have hv' : v = true := by cases v <;> simp_all
+  subst hv'
+  refine ⟨?_, hv, m1, m2⟩
+  by_cases hx : 0 < x
+  · exact Or.inl hx
+  · by_cases hy : 0 < y
+    · exact Or.inr hy
+    · exact absurd ⟨hx, hy⟩ c
 
 end Comdex.Pool
